@@ -106,6 +106,7 @@ MUTATIONS = {
         ('webclient', 'tonic-web/src/call.rs', r'len \+= msg_len as usize \+ 4 \+ 1;', 'len += msg_len as usize + 4;', 'frame walk skips one byte too few'),
     ],
     'C12': [
+        ('reqresp', 'tonic/src/service/interceptor.rs', r'ResponseBodyKindProj::Empty => Poll::Ready\(None\),', 'ResponseBodyKindProj::Empty => Poll::Pending,', 'the body of a veto response never ends'),
         ('reqresp', 'tonic/src/service/interceptor.rs', r'SanitizeHeaders::No\)', 'SanitizeHeaders::Yes)', 'interceptor path sanitises reserved headers'),
         ('reqresp', 'tonic/src/service/interceptor.rs', r'Err\(status\) => ResponseFuture::status\(status\),', 'Err(status) => { let _ = self.inner.call(http::Request::new(msg)); ResponseFuture::status(status) }', 'veto still calls the service'),
     ],
